@@ -221,6 +221,23 @@ def run(shard, ctx):
             names_ = ["bogus_key", "_", "_comment", "_dc", "__doc__", "__class__", "Cat", "cat ", "descriptor_type_code_", "x", "0", "",
                       None, 0, 1, -1, 2.5, False, (), ("cat",), b"cat", frozenset()]  # keys need not be strings (csv / yaml readers produce None)
             values_ = [1, 0, None, False, True, "", "text", {}, [], b"", 3.5]
+            def near_names(table):
+                """strings that are close to an entry of the table without being one: its leading words, a cut inside a word, another
+                case, surrounding blanks"""
+                out = set()
+                full = set()
+                for v in table.values():
+                    for t in v.values() if isinstance(v, dict) else [v]:
+                        if isinstance(t, str) and t:
+                            full.add(t)
+                for t in full:
+                    words = t.split(" ")
+                    for i in range(1, len(words)):
+                        out.add(" ".join(words[:i]))
+                    out.update([t[: max(1, len(t) // 2)], t.lower(), t.upper(), " " + t, t + " ", t.replace(" ", "  ", 1)])
+                return sorted(x for x in out if x and x not in full)
+
+            near_cscd, near_seg, near_dev = near_names(cscd_codes), near_names(seg_codes), near_names(tabl._device_type_codes)
             forced = [(m, nm, vl) for m in (0, 1) for nm in names_ for vl in values_]
             # names that belong one level further down (device type specific parameters), given beside the descriptor's own keys
             forced += [(0, nm, vl) for nm in ("pad", "disk_block_length", "fixed", "stream_block_length") for vl in (0, 1, 512, None)] * 2
@@ -246,18 +263,18 @@ def run(shard, ctx):
                     rng.choice(kw["segment_descriptor_list"])[bogus_name] = bogus_value
                     klass = "xcopy%d.segment_unknown_key" % spc
                 elif mut == 2:
-                    code = rng.choice([x for x in range(256) if x not in cscd_codes] + ["no such descriptor"])
+                    code = rng.choice([x for x in range(256) if x not in cscd_codes] + ["no such descriptor"]) if rng.random() < 0.6 or not near_cscd else rng.choice(near_cscd)
                     rng.choice(kw[lk])["descriptor_type_code"] = code
                     klass = "xcopy%d.cscd_code_outside_table" % spc
                 elif mut == 3:
-                    code = rng.choice([x for x in range(256) if x not in seg_codes] + ["no such segment"])
+                    code = rng.choice([x for x in range(256) if x not in seg_codes] + ["no such segment"]) if rng.random() < 0.6 or not near_seg else rng.choice(near_seg)
                     rng.choice(kw["segment_descriptor_list"])["descriptor_type_code"] = code
                     klass = "xcopy%d.segment_code_outside_table" % spc
                 elif mut == 10:
                     # a peripheral device type outside the table of the standard the class implements, with the optional device
                     # type specific parameters given, empty, or left out
                     known = set(tabl._device_type_codes)
-                    code = rng.choice([x for x in range(32) if x not in known] * 3 + [32, 0x7F, 255, 256, -1, "no such device", "block device", 2.5])
+                    code = rng.choice([x for x in range(32) if x not in known] * 3 + [32, 0x7F, 255, 256, -1, "no such device", "block device", 2.5] + near_dev[:40])
                     d = rng.choice(kw[lk])
                     d["peripheral_device_type"] = code
                     how = rng.choice(["given", "empty", "absent"])
